@@ -344,7 +344,11 @@ def check_litfmt(R, drv, tier):
             I.exits = []
             I.explore(st)
             lastI[:] = [I]
-            for e in I.exits:
+            for k_exit, e in enumerate(I.exits):
+                if time.time() - t0 > budget:
+                    R.cov.setdefault("bounds", {})["K-litfmt-stopped"] = (f"time budget of {budget:.0f} s reached inside the run n = {n} ({alphabet}): {k_exit} of {len(I.exits)} "
+                                                                           "printer paths were composed with the reader; the rest was not explored in this run")
+                    break
                 nprint += 1
                 if e.kind != "return":
                     v, model, dt = kernels.check(e.pc, z3.BoolVal(True))
